@@ -25,6 +25,8 @@ pub struct SchedStats {
     /// task ids chosen in the execution that is running / ran last
     pub current: Vec<usize>,
     pub divergence: Option<String>,
+    /// the exploration was cut off by the execution / wall cap: NOT exhaustive
+    pub capped: bool,
 }
 
 pub struct BoundedDfs {
@@ -33,33 +35,59 @@ pub struct BoundedDfs {
     bound: usize,
     started: bool,
     stats: Arc<Mutex<SchedStats>>,
+    max_executions: u64,
+    deadline: std::time::Instant,
+    /// delay bounding (Emmi/Qadeer/Rakamaric): every deviation from the default choice costs
+    /// one, also when the running task is blocked - polynomially many executions, used for long
+    /// sessions where the non-preemptive choices alone are exponentially many
+    delay_bounded: bool,
 }
 
+pub static ANY_CAPPED: std::sync::atomic::AtomicBool = std::sync::atomic::AtomicBool::new(false);
+pub const MAX_EXECUTIONS_PER_EXPLORATION: u64 = 3_000_000;
+pub const MAX_SECONDS_PER_EXPLORATION: u64 = 240;
+
 impl BoundedDfs {
-    pub fn new(bound: usize, stats: Arc<Mutex<SchedStats>>) -> Self {
-        BoundedDfs { levels: vec![], step: 0, bound, started: false, stats }
+    pub fn new(bound: usize, stats: Arc<Mutex<SchedStats>>, delay_bounded: bool) -> Self {
+        BoundedDfs {
+            delay_bounded,
+            levels: vec![],
+            step: 0,
+            bound,
+            started: false,
+            stats,
+            max_executions: MAX_EXECUTIONS_PER_EXPLORATION,
+            deadline: std::time::Instant::now() + std::time::Duration::from_secs(MAX_SECONDS_PER_EXPLORATION),
+        }
     }
-    fn cost(l: &Level, idx: usize) -> usize {
-        l.cost_before + usize::from(l.cur_runnable && idx > 0)
+    fn cost(&self, l: &Level, idx: usize) -> usize {
+        l.cost_before + usize::from((l.cur_runnable || self.delay_bounded) && idx > 0)
     }
 }
 
 impl Scheduler for BoundedDfs {
     fn new_execution(&mut self) -> Option<Schedule> {
+        {
+            let mut s = self.stats.lock().unwrap();
+            if s.executions >= self.max_executions || std::time::Instant::now() > self.deadline {
+                s.capped = true;
+                return None;
+            }
+        }
         if self.started {
             // backtrack: deepest level with an untried alternative within the bound
             loop {
-                let Some(l) = self.levels.last_mut() else { return None };
+                let Some(l) = self.levels.last() else { return None };
                 let mut next = None;
                 for j in l.idx + 1..l.choices.len() {
-                    if Self::cost(l, j) <= self.bound {
+                    if self.cost(l, j) <= self.bound {
                         next = Some(j);
                         break;
                     }
                 }
                 match next {
                     Some(j) => {
-                        l.idx = j;
+                        self.levels.last_mut().unwrap().idx = j;
                         break;
                     }
                     None => {
@@ -90,7 +118,7 @@ impl Scheduler for BoundedDfs {
             let mut rest: Vec<usize> = ids.iter().cloned().filter(|i| Some(*i) != cur || !cur_runnable).collect();
             rest.sort();
             choices.extend(rest);
-            let cost_before = self.levels.last().map(|l| Self::cost(l, l.idx)).unwrap_or(0);
+            let cost_before = self.levels.last().map(|l| self.cost(l, l.idx)).unwrap_or(0);
             self.levels.push(Level { choices, idx: 0, cost_before, cur_runnable });
         }
         let l = &self.levels[k];
@@ -151,6 +179,8 @@ pub struct EnvConfig {
     pub clamp: Option<usize>,
     /// stdout pipe capacity in bytes with a draining client task (None = unbounded)
     pub stdout_cap: Option<usize>,
+    /// delay bounding instead of preemption bounding
+    pub delay_bounded: bool,
 }
 
 #[derive(Default, Debug)]
@@ -185,13 +215,12 @@ fn one_execution(env: &EnvConfig) -> Outcome {
         } else {
             None
         };
-        let stop = Arc::new(std::sync::atomic::AtomicBool::new(false));
         let d = if drain {
-            let stop = stop.clone();
             Some(shuttle::future::spawn(async move {
-                while !stop.load(std::sync::atomic::Ordering::SeqCst) {
-                    vtokio::verif::stdout_drain_all();
+                // the client reads whenever output is available (blocking wait, no spinning)
+                while vtokio::verif::stdout_wait_data().await {
                     vtokio::verif::vyield().await;
+                    vtokio::verif::stdout_drain_all();
                 }
             }))
         } else {
@@ -201,7 +230,7 @@ fn one_execution(env: &EnvConfig) -> Outcome {
         let r = server.run().await;
         // the instant run() returns is when the real runtime is dropped: snapshot the output
         let raw = vtokio::verif::stdout_snapshot();
-        stop.store(true, std::sync::atomic::Ordering::SeqCst);
+        vtokio::verif::stdout_drain_stop();
         if let Some(f) = f {
             let _ = f.await;
         }
@@ -240,7 +269,7 @@ fn config() -> shuttle::Config {
 pub fn explore(env: &EnvConfig, bound: usize) -> Exploration {
     let stats = Arc::new(Mutex::new(SchedStats::default()));
     let collected: Arc<Mutex<Collected>> = Arc::new(Mutex::new(Collected::default()));
-    let sched = BoundedDfs::new(bound, stats.clone());
+    let sched = BoundedDfs::new(bound, stats.clone(), env.delay_bounded);
     let env2 = env.clone();
     let (st2, col2) = (stats.clone(), collected.clone());
     let r = guarded(move || {
@@ -256,6 +285,9 @@ pub fn explore(env: &EnvConfig, bound: usize) -> Exploration {
     vtokio::verif::set_controlled(false);
     vtokio::verif::set_clamp(None);
     let stats = stats.lock().unwrap().clone();
+    if stats.capped {
+        ANY_CAPPED.store(true, std::sync::atomic::Ordering::SeqCst);
+    }
     let outcomes = std::mem::take(&mut collected.lock().unwrap().outcomes);
     let abort = match r {
         Ok(()) => stats.divergence.clone().map(|d| (d, stats.current.clone())),
